@@ -26,7 +26,7 @@ def publishedName (m : Method) : String :=
   | 1 => Casing.toString (serdeSnake (variantName m))
   | _ => ""
 
-def bytesOf (s : String) : List Nat := s.toUTF8.toList.map (·.toNat)
+def bytesOf (s : String) : List Nat := s.toUTF8.data.toList.map (·.toNat)
 
 def strLe (a b : String) : Bool := !Lex.lexLt (bytesOf b) (bytesOf a)
 
